@@ -122,6 +122,10 @@ def get_func_name(func, resolv_alias=True, win_characters=True):
     if module is None:
         # Happens in doctests, eg
         module = ""
+    if module == "__mp_main__":
+        # The main script as re-imported by a child process of multiprocessing
+        # (start methods spawn and forkserver): the very same functions.
+        module = "__main__"
     if module == "__main__":
         try:
             filename = os.path.abspath(inspect.getsourcefile(func))
